@@ -184,7 +184,8 @@ def field_constraints(draw, col, n, inside=False):
             else:
                 c[k] = ['a', 'b']
         elif k == 'rex':
-            c[k] = draw(st.lists(st.sampled_from(REX_POOL), min_size=1,
+            c[k] = draw(st.lists(st.sampled_from(REX_POOL),
+                                 min_size=draw(st.sampled_from([1, 1, 1, 0])),
                                  max_size=3, unique=True))
     if atype != 'date' and c.get('type') == 'date' and (
             'min' in c or 'max' in c):
